@@ -7,11 +7,11 @@ WT=$1; K=$2; IDS=$3
 P=$WT/out/patch$K.diff; D=$WT/out/demo$K.rs
 [ -f "$P" ] || { echo "no patch $P"; exit 9; }
 cd $WT && git checkout -q -- . && git status --short | grep -v '^??' && { echo "worktree dirty"; exit 9; }
-mkdir -p tests && cp $D tests/seeddemo$K.rs
+rm -f tests/demo*.rs tests/seeddemo*.rs; mkdir -p tests && cp $D tests/seeddemo$K.rs
 echo "== demo without patch (must pass)"; cargo test --offline --test seeddemo$K 2>&1 | grep -E "^test result|error\[|panicked" | head -3
 git apply $P || { echo "PATCH DOES NOT APPLY"; exit 8; }
-echo "== baseline with patch"; cargo nextest run --workspace --no-fail-fast --tool-config-file pb:/w/lib/nextest.toml --profile pb --test-threads 8 --offline -E 'not test(seeddemo) and not binary(~seeddemo)' 2>&1 | grep -E "Summary|error\[" | head -3
-echo "== no-default-features build"; cargo build --offline --no-default-features 2>&1 | grep -E "^error" | head -3
+echo "== baseline with patch"; mv tests/seeddemo$K.rs /tmp/_seeddemo.rs; cargo nextest run --workspace --no-fail-fast --tool-config-file pb:/w/lib/nextest.toml --profile pb --test-threads 8 --offline -E 'not test(seeddemo) and not binary(~seeddemo)' 2>&1 | grep -E "Summary|error\[" | head -3
+cp /tmp/_seeddemo.rs tests/seeddemo$K.rs; echo "== no-default-features build"; cargo build --offline --no-default-features 2>&1 | grep -E "^error" | head -3
 echo "== demo with patch (must fail)"; cargo test --offline --test seeddemo$K 2>&1 | grep -E "^test result|error\[" | head -3
 git checkout -q -- . ; rm -f tests/seeddemo$K.rs
 [ "${WT_ONLY:-0}" = "1" ] && exit 0
